@@ -10,7 +10,8 @@ BOUNDARY_PORTS = [1, 2, 3, 65533, 65534, 65535]
 COMMON_PORTS = [20, 21, 22, 23, 25, 53, 69, 80, 123, 135, 161, 179, 443, 514, 521, 8080, 15001]
 PROTOS = [0, 0, 6, 6, 6, 6, 17, 17, 17, 1, 1, 47, 89, 50, 51, 2, 4, 41, 88, 103, 255, 99]
 TCP_FLAGS = ["ack", "fin", "psh", "rst", "syn", "urg", "established"]
-GROUP_NAMES = ["G1", "G2", "SRV", "NET-A"]
+# (two names in lower case that start with letters of the platform keywords object-group/addrgroup)
+GROUP_NAMES = ["G1", "G2", "SRV", "NET-A", "dmz-hosts", "admin"]
 HEAD = "= "
 
 
@@ -79,6 +80,13 @@ def gen_port(w, cfg, platform):
         return ("neq", tuple(sorted({a, a + 1, w.choice(COMMON_PORTS)}))[:3])
     if r < 0.35:
         return None
+    if cfg.get("boundary_ports") and w.random() < 0.5:
+        # intervals that end at, or one short of, the ends of the port range
+        x = w.choice([1024, 60000, 65000, 65530])
+        y = w.choice([3, 100, 1024])
+        return w.choice([("range", (x, MAXP - 1)), ("range", (x, MAXP)), ("lt", (MAXP,)),
+                         ("lt", (MAXP - 1,)), ("gt", (x - 1,)), ("range", (2, y)),
+                         ("range", (1, y)), ("gt", (1,)), ("gt", (2,)), ("lt", (y + 1,))])
 
     def operand():
         x = w.random()
@@ -128,6 +136,9 @@ def gen_port(w, cfg, platform):
     a = operand()
     b = a + w.choice([0, 1, 2, 10, 100]) if w.random() < 0.85 else operand()
     b = min(b, MAXP)
+    if w.random() < 0.15:
+        b = w.choice([MAXP - 1, MAXP])  # an interval that ends at (or just below) the top port
+        a = max(1, b - w.choice([1, 10, 100, 1000]))
     return ("range", (min(a, b), max(a, b)))
 
 
@@ -198,10 +209,42 @@ def _widen_addr(w, addr):
     return ("any",) if addr[0] != "group" else addr
 
 
+def _port_interval(port):
+    """(lo, hi) of a port expression that denotes one interval, else None."""
+    op, ops = port
+    if op == "eq" and len(ops) == 1:
+        return ops[0], ops[0]
+    if op == "range":
+        return min(ops), max(ops)
+    if op == "gt" and ops[0] < MAXP:
+        return ops[0] + 1, MAXP
+    if op == "lt" and ops[0] > 1:
+        return 1, ops[0] - 1
+    return None
+
+
+def _spell_interval(w, lo, hi):
+    """Some spelling of the interval [lo, hi] (another operator where one exists)."""
+    cands = [("range", (lo, hi))]
+    if hi == MAXP and lo > 1:
+        cands += [("gt", (lo - 1,))] * 2
+    if lo == 1 and hi < MAXP:
+        cands += [("lt", (hi + 1,))] * 2
+    if lo == hi:
+        cands.append(("eq", (lo,)))
+    return w.choice(cands)
+
+
 def _narrow_port(w, port, platform):
     if port is None:
         return ("eq", (w.choice(COMMON_PORTS),))
     op, ops = port
+    iv = _port_interval(port)
+    if iv and iv[0] < iv[1] and w.random() < 0.3:
+        # one port less at one end, or the same set, in another spelling (still covered)
+        lo, hi = iv
+        lo, hi = w.choice([(lo + 1, hi), (lo, hi - 1), (lo, hi)])
+        return _spell_interval(w, lo, hi)
     if op == "range" and ops[0] < ops[1]:
         return w.choice([("range", (ops[0], ops[1] - 1)), ("eq", (ops[0],)), ("eq", (ops[1],))])
     if op == "eq" and len(ops) > 1:
@@ -222,6 +265,13 @@ def _widen_port(w, port, platform):
     if port is None:
         return None
     op, ops = port
+    iv = _port_interval(port)
+    if iv and w.random() < (0.85 if platform == "boundary" else 0.4):
+        # exactly one port more at one end, in another spelling: a near miss of the cover
+        lo, hi = iv
+        cands = ([(lo - 1, hi)] if lo > 1 else []) + ([(lo, hi + 1)] if hi < MAXP else [])
+        if cands:
+            return _spell_interval(w, *w.choice(cands))
     if op == "eq" and len(ops) == 1:
         p = ops[0]
         return w.choice([None, ("range", (max(1, p - 1), min(MAXP, p + 1))),
@@ -259,6 +309,8 @@ def _derive_ace(w, cfg, platform, prev):
     spec = dict(prev)
     how = w.choice(["dup", "dup", "narrow", "narrow", "narrow", "widen", "flip", "field",
                     "sibling"])
+    if cfg.get("boundary_ports") and w.random() < 0.6:
+        how = w.choice(["widen", "widen", "narrow"])
     if how == "sibling":
         # same network and non-contiguous bits, another contiguous low run
         for side in ("src", "dst"):
@@ -279,6 +331,8 @@ def _derive_ace(w, cfg, platform, prev):
         spec["action"] = "deny" if prev["action"] == "permit" else "permit"
         return spec
     side = w.choice(["src", "dst", "sport", "dport", "proto", "flags"])
+    if cfg.get("boundary_ports") and prev["proto"] in (6, 17) and w.random() < 0.6:
+        side = "dport" if prev["dport"] is not None else "sport"
     if how == "narrow":
         if side in ("src", "dst"):
             spec[side] = _narrow_addr(w, prev[side])
@@ -293,7 +347,8 @@ def _derive_ace(w, cfg, platform, prev):
         if side in ("src", "dst"):
             spec[side] = _widen_addr(w, prev[side])
         elif side in ("sport", "dport") and prev["proto"] in (6, 17):
-            spec[side] = _widen_port(w, prev[side], platform)
+            spec[side] = _widen_port(w, prev[side],
+                                     "boundary" if cfg.get("boundary_ports") else platform)
         elif side == "proto" and prev["sport"] is None and prev["dport"] is None \
                 and not prev["flags"]:
             spec["proto"] = 0
@@ -412,7 +467,10 @@ def gen_acl_lines(w, cfg, platform, version):
             specs.append(None)
             continue
         if aces and w.random() < cfg.get("p_related", 0.5):
-            spec = derive_ace(w, cfg, platform, w.choice(aces))
+            pool = aces
+            if cfg.get("boundary_ports"):
+                pool = [a for a in aces if a["dport"] or a["sport"]] or aces
+            spec = derive_ace(w, cfg, platform, w.choice(pool))
         else:
             spec = gen_ace(w, cfg, platform)
         aces.append(spec)
@@ -472,6 +530,9 @@ def gen_member_sets(w, platform):
     }
     if w.random() < 0.6:
         out["NET-A"] = gen_members(w, platform, w.randint(1, 3))
+    for name in GROUP_NAMES[4:]:
+        if w.random() < 0.6:
+            out[name] = gen_members(w, platform, w.randint(1, 3))
     if w.random() < 0.2:
         out.pop(w.choice(sorted(out)))
     return out
